@@ -64,9 +64,15 @@ Engine/KPK.vos Engine/KPK.vok Engine/KPK.required_vos: Engine/KPK.v Base/Geom.vo
 Engine/KPKRank.vo Engine/KPKRank.glob Engine/KPKRank.v.beautified Engine/KPKRank.required_vo: Engine/KPKRank.v 
 Engine/KPKRank.vio: Engine/KPKRank.v 
 Engine/KPKRank.vos Engine/KPKRank.vok Engine/KPKRank.required_vos: Engine/KPKRank.v 
-Engine/KeyScratch.vo Engine/KeyScratch.glob Engine/KeyScratch.v.beautified Engine/KeyScratch.required_vo: Engine/KeyScratch.v Engine/PositionRep.vo Engine/RepProofs.vo Engine/RepRoundTrip.vo Base/NIter.vo
-Engine/KeyScratch.vio: Engine/KeyScratch.v Engine/PositionRep.vio Engine/RepProofs.vio Engine/RepRoundTrip.vio Base/NIter.vio
-Engine/KeyScratch.vos Engine/KeyScratch.vok Engine/KeyScratch.required_vos: Engine/KeyScratch.v Engine/PositionRep.vos Engine/RepProofs.vos Engine/RepRoundTrip.vos Base/NIter.vos
+Engine/KeyScratch.vo Engine/KeyScratch.glob Engine/KeyScratch.v.beautified Engine/KeyScratch.required_vo: Engine/KeyScratch.v Engine/PositionRep.vo Engine/RepProofs.vo Engine/RepRoundTrip.vo Base/NIter.vo Base/Bits.vo Chess/RulesFacts.vo
+Engine/KeyScratch.vio: Engine/KeyScratch.v Engine/PositionRep.vio Engine/RepProofs.vio Engine/RepRoundTrip.vio Base/NIter.vio Base/Bits.vio Chess/RulesFacts.vio
+Engine/KeyScratch.vos Engine/KeyScratch.vok Engine/KeyScratch.required_vos: Engine/KeyScratch.v Engine/PositionRep.vos Engine/RepProofs.vos Engine/RepRoundTrip.vos Base/NIter.vos Base/Bits.vos Chess/RulesFacts.vos
+Engine/KeyScratchInit.vo Engine/KeyScratchInit.glob Engine/KeyScratchInit.v.beautified Engine/KeyScratchInit.required_vo: Engine/KeyScratchInit.v Engine/PositionRep.vo Engine/RepProofs.vo Engine/RepRoundTrip.vo Engine/RepAbs.vo Engine/RepRefineLegal.vo Engine/KeyScratch.vo Engine/KeyScratchMove.vo Base/NIter.vo Base/Bits.vo Chess/RulesFacts.vo
+Engine/KeyScratchInit.vio: Engine/KeyScratchInit.v Engine/PositionRep.vio Engine/RepProofs.vio Engine/RepRoundTrip.vio Engine/RepAbs.vio Engine/RepRefineLegal.vio Engine/KeyScratch.vio Engine/KeyScratchMove.vio Base/NIter.vio Base/Bits.vio Chess/RulesFacts.vio
+Engine/KeyScratchInit.vos Engine/KeyScratchInit.vok Engine/KeyScratchInit.required_vos: Engine/KeyScratchInit.v Engine/PositionRep.vos Engine/RepProofs.vos Engine/RepRoundTrip.vos Engine/RepAbs.vos Engine/RepRefineLegal.vos Engine/KeyScratch.vos Engine/KeyScratchMove.vos Base/NIter.vos Base/Bits.vos Chess/RulesFacts.vos
+Engine/KeyScratchMove.vo Engine/KeyScratchMove.glob Engine/KeyScratchMove.v.beautified Engine/KeyScratchMove.required_vo: Engine/KeyScratchMove.v Engine/PositionRep.vo Engine/EncodingProofs.vo Engine/RepProofs.vo Engine/RepRoundTrip.vo Engine/RepRoundTripNormal.vo Engine/RepAbs.vo Engine/RepRefine.vo Engine/RepRefineLegal.vo Engine/KeyScratch.vo
+Engine/KeyScratchMove.vio: Engine/KeyScratchMove.v Engine/PositionRep.vio Engine/EncodingProofs.vio Engine/RepProofs.vio Engine/RepRoundTrip.vio Engine/RepRoundTripNormal.vio Engine/RepAbs.vio Engine/RepRefine.vio Engine/RepRefineLegal.vio Engine/KeyScratch.vio
+Engine/KeyScratchMove.vos Engine/KeyScratchMove.vok Engine/KeyScratchMove.required_vos: Engine/KeyScratchMove.v Engine/PositionRep.vos Engine/EncodingProofs.vos Engine/RepProofs.vos Engine/RepRoundTrip.vos Engine/RepRoundTripNormal.vos Engine/RepAbs.vos Engine/RepRefine.vos Engine/RepRefineLegal.vos Engine/KeyScratch.vos
 Engine/Magic.vo Engine/Magic.glob Engine/Magic.v.beautified Engine/Magic.required_vo: Engine/Magic.v Base/Geom.vo
 Engine/Magic.vio: Engine/Magic.v Base/Geom.vio
 Engine/Magic.vos Engine/Magic.vok Engine/Magic.required_vos: Engine/Magic.v Base/Geom.vos
@@ -226,9 +232,9 @@ Props/Properties_C02.vos Props/Properties_C02.vok Props/Properties_C02.required_
 Props/Properties_C03.vo Props/Properties_C03.glob Props/Properties_C03.v.beautified Props/Properties_C03.required_vo: Props/Properties_C03.v Engine/PositionRep.vo Engine/RepAbs.vo Engine/RepProofs.vo Engine/RepRoundTrip.vo Engine/RepRoundTripNormal.vo Engine/Encoding.vo Engine/RepRefine.vo Engine/RepRefineLegal.vo Engine/RepRoundTripLegal.vo Chess/Rules.vo
 Props/Properties_C03.vio: Props/Properties_C03.v Engine/PositionRep.vio Engine/RepAbs.vio Engine/RepProofs.vio Engine/RepRoundTrip.vio Engine/RepRoundTripNormal.vio Engine/Encoding.vio Engine/RepRefine.vio Engine/RepRefineLegal.vio Engine/RepRoundTripLegal.vio Chess/Rules.vio
 Props/Properties_C03.vos Props/Properties_C03.vok Props/Properties_C03.required_vos: Props/Properties_C03.v Engine/PositionRep.vos Engine/RepAbs.vos Engine/RepProofs.vos Engine/RepRoundTrip.vos Engine/RepRoundTripNormal.vos Engine/Encoding.vos Engine/RepRefine.vos Engine/RepRefineLegal.vos Engine/RepRoundTripLegal.vos Chess/Rules.vos
-Props/Properties_C04.vo Props/Properties_C04.glob Props/Properties_C04.v.beautified Props/Properties_C04.required_vo: Props/Properties_C04.v Engine/PositionRep.vo Engine/RepAbs.vo Engine/RepProofs.vo
-Props/Properties_C04.vio: Props/Properties_C04.v Engine/PositionRep.vio Engine/RepAbs.vio Engine/RepProofs.vio
-Props/Properties_C04.vos Props/Properties_C04.vok Props/Properties_C04.required_vos: Props/Properties_C04.v Engine/PositionRep.vos Engine/RepAbs.vos Engine/RepProofs.vos
+Props/Properties_C04.vo Props/Properties_C04.glob Props/Properties_C04.v.beautified Props/Properties_C04.required_vo: Props/Properties_C04.v Engine/PositionRep.vo Engine/RepAbs.vo Engine/RepProofs.vo Engine/RepRefine.vo Engine/RepRefineLegal.vo Engine/RepRoundTrip.vo Engine/KeyScratch.vo Engine/KeyScratchMove.vo Engine/KeyScratchInit.vo Chess/Rules.vo
+Props/Properties_C04.vio: Props/Properties_C04.v Engine/PositionRep.vio Engine/RepAbs.vio Engine/RepProofs.vio Engine/RepRefine.vio Engine/RepRefineLegal.vio Engine/RepRoundTrip.vio Engine/KeyScratch.vio Engine/KeyScratchMove.vio Engine/KeyScratchInit.vio Chess/Rules.vio
+Props/Properties_C04.vos Props/Properties_C04.vok Props/Properties_C04.required_vos: Props/Properties_C04.v Engine/PositionRep.vos Engine/RepAbs.vos Engine/RepProofs.vos Engine/RepRefine.vos Engine/RepRefineLegal.vos Engine/RepRoundTrip.vos Engine/KeyScratch.vos Engine/KeyScratchMove.vos Engine/KeyScratchInit.vos Chess/Rules.vos
 Props/Properties_C05.vo Props/Properties_C05.glob Props/Properties_C05.v.beautified Props/Properties_C05.required_vo: Props/Properties_C05.v Gen/Consts.vo Engine/SearchDriver.vo Engine/SearchDriverProofs.vo Chess/Rules.vo Engine/SearchNode.vo Engine/SearchNodeProofs.vo
 Props/Properties_C05.vio: Props/Properties_C05.v Gen/Consts.vio Engine/SearchDriver.vio Engine/SearchDriverProofs.vio Chess/Rules.vio Engine/SearchNode.vio Engine/SearchNodeProofs.vio
 Props/Properties_C05.vos Props/Properties_C05.vok Props/Properties_C05.required_vos: Props/Properties_C05.v Gen/Consts.vos Engine/SearchDriver.vos Engine/SearchDriverProofs.vos Chess/Rules.vos Engine/SearchNode.vos Engine/SearchNodeProofs.vos
